@@ -1206,7 +1206,8 @@ func (e *c06Env) peerHeaders(id uint32, end bool, status int, cl int) string {
 			case !st.gotFinal:
 				st.gotFinal = true
 				st.peerEnd, st.noBody = end, end || st.head
-				if !st.noBody {
+				if !st.noBody && status != 204 && status != 304 {
+					// (a status that never has a body: the declared length is not accounted, /repo 5224b93)
 					st.remain = int64(cl)
 				}
 				if !st.gotRes && !(st.noBody && st.body == nil && !end) {
